@@ -46,6 +46,10 @@ type c19Case struct {
 	CacheCap int        `json:"cache_cap"`
 	Advances []c19Adv   `json:"advances"`
 	Post     string     `json:"post"` // "", "restart", "crash"
+	// SlowListenerMs: the consumer of the importer's progress / error channels
+	// starts late (a stalled console). The unchanged importer hands messages
+	// over one at a time, so its outcome does not depend on this delay.
+	SlowListenerMs int `json:"slow_listener_ms,omitempty"`
 }
 
 var errSimRead = errors.New("simulated read error")
@@ -322,6 +326,9 @@ func runC19(c *c19Case, scratch string, stats map[string]int64) (v *core.DriverV
 	chOk, chErr = doBatchInsert(rs, cfg, rd)
 	go func() {
 		defer close(done)
+		if c.SlowListenerMs > 0 {
+			time.Sleep(time.Duration(c.SlowListenerMs) * time.Millisecond)
+		}
 		for chOk != nil || chErr != nil {
 			select {
 			case _, ok := <-chOk:
@@ -551,9 +558,17 @@ func genC19(seed uint64, thorough bool) *c19Case {
 	if thorough {
 		nrec = r.Range(1, 300)
 	}
+	flood := r.Chance(0.001)
+	if flood {
+		// a document with thousands of bad records and a console that is slow to
+		// take the reports: every record must still be stored or reported
+		nrec = r.Range(1100, 2800)
+		c.SlowListenerMs = r.Range(20, 60)
+	}
 	var sb strings.Builder
 	for i := 0; i < nrec; i++ {
 		w := width
+		floodBad := flood && i < nrec-r.Range(0, 30) // an unbroken run of bad records, a few ordinary ones at the end
 		switch r.Intn(20) {
 		case 0:
 			w = r.Intn(width + 1) // short record
@@ -570,10 +585,12 @@ func genC19(seed uint64, thorough bool) *c19Case {
 			}
 			sb.WriteString(genField(r, ty, c.Sep))
 		}
-		switch r.Intn(25) {
-		case 0:
+		switch x := r.Intn(25); {
+		case floodBad:
+			sb.WriteString("x\"y") // a bare quote: this record is reported, the next line starts a new one
+		case x == 0:
 			sb.WriteString("\"oops") // bare / unterminated quote
-		case 1:
+		case x == 1:
 			sb.WriteString("x\"y")
 		}
 		if i < nrec-1 || r.Chance(0.7) {
@@ -681,7 +698,13 @@ func TestVerifC19(t *testing.T) {
 	keepOut, keepErr := os.Stdout, os.Stderr
 	_, _ = keepOut, keepErr
 	os.Stdout = devnull
-	if rp := os.Getenv("VERIF_REPLAY_CASE"); rp != "" {
+	rp := os.Getenv("VERIF_REPLAY_CASE")
+	if f := os.Getenv("VERIF_REPLAY_CASE_FILE"); f != "" {
+		if b, err := os.ReadFile(f); err == nil {
+			rp = string(b)
+		}
+	}
+	if rp != "" {
 		var c c19Case
 		if err := json.Unmarshal([]byte(rp), &c); err != nil {
 			res.Harness = err.Error()
